@@ -902,6 +902,30 @@ def rule_badfilter(program, ctx, prop=P, rid="C01.badfilter"):
             ctx.ok(rid, h, "an unusable filter is reduced to `false`")
 
 
+def rule_bindnames(program, ctx, prop=P, rid="C01.bindnames"):
+    ctx.rule(
+        rid,
+        "if filter values are handed to the statement as bound parameters, each placeholder name is unique within the statement: build_query must not merge per-filter "
+        "parameter dicts with dict.update() (names generated per filter - `tag_{len(params)}` - restart at 0 for every filter, the later filter's value silently replaces "
+        "the earlier one's: one filter's tag constraint is evaluated with another filter's value). The audited tree binds nothing (values are escaped literals)",
+        floor=0,
+    )
+    bq = program.func("nostr_relay.storage.db:Subscription.build_query")
+    binds = [c for c in ast.walk(bq) if isinstance(c, ast.Call) and isinstance(c.func, ast.Attribute) and c.func.attr == "bindparams"]
+    if not binds:
+        ctx.ok(rid, bq, "the statement carries no bound parameters")
+        return
+    for b in binds:
+        srcs = {dotted(k.value) for k in b.keywords if k.arg is None}
+        merged = [c for c in ast.walk(bq) if isinstance(c, ast.Call) and isinstance(c.func, ast.Attribute) and c.func.attr == "update" and dotted(c.func.value) in srcs
+                  and any(isinstance(a, (ast.For, ast.AsyncFor)) for a in ancestors(c))]
+        if merged:
+            ctx.bad(finding_at(prop, rid, merged[0], f"`{ast.unparse(merged[0])[:50]}` merges the parameters of one filter into the statement's dict inside the loop over the filters: equal "
+                               "placeholder names of different filters collide, the last value wins"))
+        else:
+            ctx.ok(rid, b, "bound parameters are collected in one dict")
+
+
 def rule_tagclause(program, ctx, prop=P, rid="C01.tagclause"):
     ctx.rule(
         rid,
@@ -981,6 +1005,7 @@ def run(program, ctx):
     rule_hex_total(program, ctx)
     rule_allfilters(program, ctx)
     rule_tagclause(program, ctx)
+    rule_bindnames(program, ctx)
     from . import c04, c16
 
     # the live matcher's authors/delegation clause: has_tag's first result alone says nothing about *which* delegator
